@@ -7,6 +7,7 @@ CONSTANTS
   Salts = {0}
   MaxLen = 2
   LenMode = "all"
+  LenPats <- LP6
   MaxMissing = 9
   TabFull <- Bools
   MaxOps = 1
